@@ -59,7 +59,8 @@ def parse_summary_text(text):
     """Returns {kind: {status: count, '_total': n or None}} from any of the 5 formats."""
     res = {}
     for line in text.split("\n"):
-        m = re.match(r"^\s*(\d+)\s+(feature|rule|scenario|step)s?\b(.*)$", line)
+        # (user output without a trailing newline may precede the summary on the same line)
+        m = re.search(r"(?<![0-9])(\d+)\s+(feature|rule|scenario|step)s?\b(.*)$", line)
         if not m:
             continue
         kind = m.group(2)
